@@ -124,7 +124,13 @@ func (ih *Inhibitor) processAlert(ctx context.Context, a *types.Alert) {
 		if r.SourceMatchers.Matches(a.Labels) {
 			attr := attribute.String("alerting.inhibit_rule.name", r.Name)
 			span.AddEvent("alert matched rule source", trace.WithAttributes(attr))
-			if err := r.scache.Set(a); err != nil {
+			r.mtx.Lock()
+			err := r.scache.Set(a)
+			if err == nil {
+				r.updateIndex(a)
+			}
+			r.mtx.Unlock()
+			if err != nil {
 				message := "error on set alert"
 				ih.logger.Error(message, "err", err)
 				span.SetStatus(codes.Error, message)
@@ -132,7 +138,6 @@ func (ih *Inhibitor) processAlert(ctx context.Context, a *types.Alert) {
 				continue
 			}
 			span.SetAttributes(attr)
-			r.updateIndex(a)
 		}
 	}
 }
@@ -264,6 +269,10 @@ type InhibitRule struct {
 	// The index items might overwrite eachother if multiple source alerts have exact equal labels.
 	// Overwrites only happen if the new source alert has bigger EndsAt value.
 	sindex *index
+
+	// mtx keeps scache and sindex in step: storing a source alert and indexing
+	// it, and dropping collected alerts from the index, exclude each other.
+	mtx sync.Mutex
 }
 
 // NewInhibitRule returns a new InhibitRule based on a configuration definition.
@@ -379,7 +388,14 @@ func (r *InhibitRule) findEqualSourceAlert(lset model.LabelSet, excludeTwoSidedM
 }
 
 func (r *InhibitRule) gcCallback(alerts []*types.Alert) {
+	r.mtx.Lock()
+	defer r.mtx.Unlock()
 	for _, a := range alerts {
+		// The callback runs after the sweep has released the cache: an alert
+		// that has been stored again since then keeps its index entry.
+		if _, err := r.scache.Get(a.Fingerprint()); err == nil {
+			continue
+		}
 		r.sindex.Remove(r.fingerprintEquals(a.Labels), a.Fingerprint())
 	}
 }
